@@ -26,6 +26,63 @@ def C(e, fn):
     return canon(e, ReachingDefs(fn), None, [a.arg for a in fn.args.args])
 
 
+def _sign_conds(conds, p):
+    """which of p > 0, p == 0, p < 0 the conditions (canonical text, polarity) admit; None when a condition is not a
+    comparison of p with zero"""
+    admit = {"pos", "zero", "neg"}
+    table = {"0 < P": {"pos"}, "P < 0": {"neg"}, "0 <= P": {"pos", "zero"}, "P <= 0": {"neg", "zero"}, "P == 0": {"zero"}, "0 == P": {"zero"}, "P != 0": {"pos", "neg"}, "0 != P": {"pos", "neg"}}
+    for t, pol in conds:
+        k = t.replace("0.0", "0").replace(p, "P")
+        if k not in table:
+            return None
+        admit &= table[k] if pol else ({"pos", "zero", "neg"} - table[k])
+    return admit
+
+
+def image_outcomes(mod, fn, p):
+    """[(sign of the factor, (canonical first arg, canonical second arg))] over every way the method constructs its
+    result: return per branch, locals assigned per branch, tuple unpacking, conditional expressions"""
+    from ..flowtools import alternatives, canon_guards
+
+    rd = ReachingDefs(fn)
+    params = [a.arg for a in fn.args.args]
+
+    def expand(e, at, depth=0):
+        if isinstance(e, ast.IfExp):
+            ct = canon(e.test, rd, at, params)
+            return [(v, c + [(ct, True)]) for v, c in expand(e.body, at, depth)] + [(v, c + [(ct, False)]) for v, c in expand(e.orelse, at, depth)]
+        if isinstance(e, ast.Name) and e.id not in params and depth < 3:
+            alts = alternatives(mod, fn, rd, e.id, at, params)
+            if alts and all(v is not None for v, _c in alts):
+                out = []
+                for v, c in alts:
+                    d = [x for x in rd.defs(e.id, at) if x.node is not None]
+                    out += [(v2, c + c2) for v2, c2 in expand(v, d[0].stmt if len(d) == 1 else at, depth + 1)] if len(d) == 1 else [(v, c)]
+                return out
+        return [(e, [])]
+
+    outs = []
+    for r in walk_no_nested(fn):
+        if not (isinstance(r, ast.Return) and r.value is not None):
+            continue
+        rg = [(t, pol) for t, pol, _n in canon_guards(mod, r, fn, rd, params)]
+        for v, c0 in expand(r.value, r):
+            if not (isinstance(v, ast.Call) and len(v.args) == 2 and not v.keywords):
+                outs.append((None, (norm(v), "")))
+                continue
+            for a0, c1 in expand(v.args[0], r):
+                for a1, c2 in expand(v.args[1], r):
+                    signs = _sign_conds(rg + c0 + c1 + c2, p)
+                    if signs is None:
+                        outs.append((None, (norm(a0), norm(a1))))
+                        continue
+                    at0 = rd.stmt_of(a0) or r
+                    at1 = rd.stmt_of(a1) or r
+                    for sgn in sorted(signs):
+                        outs.append((sgn, (canon(a0, rd, at0, params), canon(a1, rd, at1, params))))
+    return outs
+
+
 def numeric_isinstance_ok(test):
     """isinstance(x, T): T must admit int and float (tuple with both, ValidTypes.NUMBERS, numbers.Real/Number)."""
     t = norm(test.args[1])
@@ -114,7 +171,7 @@ def run(repo, res, tier):
 
         def atoms(e):
             t = norm(e)
-            if isinstance(e, ast.Call) and norm(e.func) == "self._offset" and len(e.args) == 1 and norm(e.args[0]) in ("%s.start" % op, "%s._start" % op):
+            if isinstance(e, ast.Call) and norm(e.func) in ("self._offset", "self.offset") and len(e.args) == 1 and norm(e.args[0]) in ("%s.start" % op, "%s._start" % op):
                 return "o"
             if t in ("%s.length" % op,):
                 return "L2"
@@ -126,7 +183,13 @@ def run(repo, res, tier):
                 return "s2"
             return None
 
-        facts = inequalities(r.value, True, atoms) if isinstance(r.value, ast.Compare) else []
+        # locals (start_offset = self._offset(other.start)) are seen through
+        rd_c = ReachingDefs(fn)
+        try:
+            val = ast.parse(canon(r.value, rd_c, r, [a.arg for a in fn.args.args]), mode="eval").body
+        except SyntaxError:
+            val = r.value
+        facts = inequalities(val, True, atoms) if isinstance(val, ast.Compare) else []
         want = [{"L1": 1, "o": -1, "L2": -1}, {"L1": 1, "o": -1, "e2": -1, "s2": 1}]
         ok = any(f in want and not strict for f, strict in facts)
         res.check("SUBSET", "AngleInterval.contains(interval): offset(start) + length(arg) <= own length", ok, mod, r, "AngleInterval.contains: %s" % norm(r)[:110], "containment of an interval is not decided from where it starts plus how long it is (e.g. only its two end points are tested): an argument that runs across the gap of the interval is reported as contained although its middle is outside", qualname="AngleInterval.contains")
@@ -187,20 +250,12 @@ def run(repo, res, tier):
     for mn, op in (("__mul__", "*"), ("__truediv__", "/")):
         fn = iv.methods[mn]
         p = fn.args.args[1].arg
-        ifs = [n for n in fn.body if isinstance(n, ast.If)]
-        ok = len(ifs) == 1
-        if ok:
-            t = norm(ifs[0].test)
-            pos = t in ("%s > 0.0" % p, "%s > 0" % p, "%s >= 0" % p, "%s >= 0.0" % p)
-            neg = t in ("%s < 0.0" % p, "%s < 0" % p, "%s <= 0" % p, "%s <= 0.0" % p)
-            body_r = [n for n in ifs[0].body if isinstance(n, ast.Return)]
-            else_r = [n for n in ifs[0].orelse if isinstance(n, ast.Return)]
-            ok = (pos or neg) and len(body_r) == 1 and len(else_r) == 1
-            if ok:
-                keep = "type(self)(self.start %s %s, self.end %s %s)" % (op, p, op, p)
-                swap = "type(self)(self.end %s %s, self.start %s %s)" % (op, p, op, p)
-                b, e = C(body_r[0].value, fn), C(else_r[0].value, fn)
-                ok = (b, e) == ((keep, swap) if pos else (swap, keep))
+        outs = image_outcomes(mod, fn, p)
+        keep = ("self.start %s %s" % (op, p), "self.end %s %s" % (op, p))
+        swap = (keep[1], keep[0])
+        ok = bool(outs) and {s for s, _a in outs} >= {"pos", "neg"}
+        for sign, args in outs:
+            ok = ok and ((sign == "pos" and args == keep) or (sign == "neg" and args == swap) or (sign == "zero" and args in (keep, swap)))
         res.check("IMAGE", "Interval.%s keeps the order for positive and swaps the ends for non-positive factors" % mn, ok, mod, fn, "Interval.%s" % mn, "scaling by a negative number yields start > end (rejected by the constructor) or the wrong set", qualname="Interval." + mn)
     for mn, want in (("__add__", "type(self)(self.start + {p}, self.end + {p})"), ("__sub__", "type(self)(self.start - {p}, self.end - {p})")):
         fn = iv.methods[mn]
